@@ -99,7 +99,8 @@ def directed_known_findings(ctx):
                 name="M",
                 attrs=[
                     cg.AttrDecl(tk="int", default=["lit", cg.R_lit(1)]),
-                    cg.AttrDecl(tk="str", default=["attr", cg.R_lit("a")], invalidated_by=("x",), preparer="upper"),
+                    cg.AttrDecl(tk="li", default=["lit", cg.R_lit([1])]),
+                    cg.AttrDecl(tk="str", default=["attr", cg.R_lit("a")], invalidated_by=("x", "nums"), preparer="upper"),
                 ],
             )
         ]
@@ -110,6 +111,9 @@ def directed_known_findings(ctx):
         for op in (
             {"kind": "setattr", "target": 0, "attr": "x", "value": cg.R_lit(5), "args": [cg.R_lit(5)], "hkind": "setattr", "validity": "valid", "form": "assign", "inplace": True},
             {"kind": "helper", "target": 0, "name": "with_x", "attr": "x", "args": [cg.R_lit(5)], "kwargs": {"_inplace": True}, "hkind": "with", "validity": "valid", "form": "value", "inplace": True},
+            # (the two above were the original witnesses: repaired by e85e4ae, kept as regression cases)
+            {"kind": "helper", "target": 0, "name": "with_num", "attr": "nums", "args": [cg.R_lit(5)], "kwargs": {"_inplace": True}, "hkind": "with_item", "validity": "valid", "form": "append", "inplace": True},
+            {"kind": "helper", "target": 0, "name": "without_num", "attr": "nums", "args": [cg.R_lit(0)], "kwargs": {"_inplace": True, "_by_index": True}, "hkind": "without_item", "validity": "valid", "form": "index:True", "inplace": True},
         ):
             insts = dr.replay(world, history)
             world.probe.arm("prep:label", 0)
@@ -120,7 +124,7 @@ def directed_known_findings(ctx):
             if fired and st.outcome == "raised":
                 judge(ctx, world, op, st, history, "callback:prep", ["directed", op["hkind"]], {
                     "callback": "prep", "invocation": 0, "invocations_total": 1,
-                    "callback_on_invalidated_dependant": "label" in invalidated_dependants(world, st, {"x"}),
+                    "callback_on_invalidated_dependant": "label" in invalidated_dependants(world, st, {op["attr"]}),
                 })
     finally:
         world.close()
